@@ -461,6 +461,8 @@ class Machine:
             elif name == "ssub":
                 res = x - (torch.tensor(float(s), dtype=x.cores[0].dtype) if p % 2 else s)
             elif name == "smul":
+                if p % 4 == 3 and not x.cores[0].is_complex():
+                    s = torch.tensor(3) if p % 8 == 3 else torch.tensor(1.5, dtype=torch.float32 if x.cores[0].dtype == torch.float64 else torch.float64)
                 res = x * s
             elif name == "sdiv":
                 res = x / (s if s != 0 else 4)
